@@ -486,6 +486,7 @@ func generate(o *cq.Opts, r *rand.Rand, add func(c12Case, ...string)) {
 		add(siCase(r, true), "unbind")
 		add(siCase(r, false), "bindonly")
 		add(siRandCase(r), "unbind", "random")
+		add(siCloseCase(r), "unbind", "close")
 		for _, nm := range []int64{1, 2, 5, 10} {
 			add(ffCase(r, nm), fmt.Sprintf("media%d", nm))
 		}
